@@ -52,25 +52,73 @@ package utils
 //@   pure
 //@   ensures result == uf_b_invalidHeaderChar(s)
 
-// ---- timers: trusted API (property C19 is not applicable to this technique: goroutines, select, runtime timers)
+// ---- timers ------------------------------------------------------------------------------------------------------
+// What a single call does is under contract: which runtime timer is armed, with which duration, what the waiting
+// goroutine does when the timer fires or the stop channel speaks, what Refresh / Stop / Clear* do. What is NOT decided
+// (property C19 is not applicable to this technique): the order in which the runtime, the waiting goroutine and a
+// canceller get to run. A select takes an arbitrary ready case here; blocking is not modelled.
+//@ typeinv (*Timer) this.timer != nil && this.stopCh != nil
+
+// a one-shot timer: armed with the given duration; its waiter runs fn once when the timer fires and never after a stop
 //@ func SetTimeout(fn, sleep)
-//@   trusted "utils/timer.go is outside the sequential subset (C19 not applicable)"
-//@   fresh
-//@   ensures result != nil
+//@   props C07, C08, C12
+//@   modifies nothing
+//@   ensures [C07.timer.armed,C08.timer.armed,C12.timer.armed] result != nil && fresh(result) && result.timer.$active && result.timer.$dur == int(sleep) && result.sleep == sleep
+//@   ensures [C07.timer.one] calls(time.NewTimer) == 1 && arg(time.NewTimer, 1, d) == sleep
+//@ func SetTimeout$1()
+//@   props C07, C08, C12
+//@   requires timer != nil
+//@   dyncall fn noeffect
+//@   modifies nothing
+//@   ensures [C07.timer.fire,C08.timer.fire,C12.timer.fire] calls(chan.select) == 1 && calls(fn) == (ret(chan.select, 1) == 0 ? 1 : 0)
+//@   callsite fn#1
+//@     assert [C07.timer.firecase] arg(chan.select, 1, 1) == timer.timer.C && ret(chan.select, 1) == 0
+
+// an interval timer: armed with the given duration; on every tick its waiter re-arms the timer with the same duration
+// and spawns fn; it leaves its loop only through the stop channel
 //@ func SetInterval(fn, sleep)
-//@   trusted "utils/timer.go is outside the sequential subset (C19 not applicable)"
-//@   fresh
-//@   ensures result != nil
-//@ func ClearTimeout(timer)
-//@   trusted "utils/timer.go is outside the sequential subset (C19 not applicable)"
-//@   noeffect
-//@ func ClearInterval(timer)
-//@   trusted "utils/timer.go is outside the sequential subset (C19 not applicable)"
-//@   noeffect
-//@ func (*Timer).Refresh()
-//@   trusted "utils/timer.go is outside the sequential subset (C19 not applicable)"
+//@   props C08
+//@   modifies nothing
+//@   ensures [C08.interval.armed] result != nil && fresh(result) && result.timer.$active && result.timer.$dur == int(sleep) && result.sleep == sleep
+//@ func SetInterval$1()
+//@   props C08
+//@   requires timer != nil
+//@   modifies *
+//@   loop 1 invariant timer != nil
+//@   ensures [C08.interval.stoponly] ret(chan.select, last) == 1 && arg(chan.select, last, 2) == timer.stopCh
+//@   callsite (*time.Timer).Reset#1
+//@     assert [C08.interval.rearm] ret(chan.select, last) == 0 && arg(chan.select, last, 1) == timer.timer.C && $t == timer.timer && $d == timer.sleep
+//@   callsite fn#1
+//@     assert [C08.interval.tick] ret(chan.select, last) == 0 && calls((*time.Timer).Reset) >= 1
+
+// stopping: the runtime timer is stopped; the waiter is told to go away exactly when the timer had not fired yet
+//@ func (*Timer).Stop()
+//@   props C07, C08, C12
 //@   requires t != nil
-//@   noeffect
+//@   modifies t.timer.$active
+//@   ensures [C07.timer.stop,C08.timer.stop,C12.timer.stop] !t.timer.$active
+//@   ensures [C07.timer.stopone] calls((*time.Timer).Stop) == 1 && arg((*time.Timer).Stop, 1, t) == t.timer
+//@   ensures [C07.timer.stopwaiter] calls(chan.send) == (ret((*time.Timer).Stop, 1) ? 1 : 0)
+//@   ensures [C07.timer.stopch] ret((*time.Timer).Stop, 1) ==> arg(chan.send, 1, ch) == t.stopCh
+//@ func ClearTimeout(timer)
+//@   props C07, C08, C12
+//@   modifies timer.timer.$active
+//@   ensures [C07.timer.clear,C08.timer.clear,C12.timer.clear] timer != nil ==> !timer.timer.$active
+//@   ensures [C07.timer.clearone] (timer != nil ==> calls((*Timer).Stop) == 1 && arg((*Timer).Stop, 1, t) == timer) && (timer == nil ==> calls((*Timer).Stop) == 0)
+//@ func ClearInterval(timer)
+//@   props C08
+//@   modifies timer.timer.$active
+//@   ensures [C08.interval.clear] timer != nil ==> !timer.timer.$active
+//@   ensures [C08.interval.clearone] calls(ClearTimeout) == 1 && arg(ClearTimeout, 1, timer) == timer
+
+// refreshing: the runtime timer is stopped and armed again with the timer's own duration, whatever its state was; a
+// timer that had already fired gets a new waiter
+//@ func (*Timer).Refresh()
+//@   props C07, C08
+//@   requires t != nil
+//@   modifies t.timer.$active, t.timer.$dur
+//@   ensures [C07.refresh.rearm,C08.refresh.rearm] result == t && t.timer.$active && t.timer.$dur == int(t.sleep)
+//@   ensures [C07.refresh.order] calls((*time.Timer).Stop) == 1 && calls((*time.Timer).Reset) == 1 && before((*time.Timer).Stop, 1, (*time.Timer).Reset, 1) && arg((*time.Timer).Reset, 1, t) == t.timer && arg((*time.Timer).Reset, 1, d) == t.sleep
 
 // ---- session ids: 18 bytes, bytes 10..17 are the big-endian value of a process-wide counter that is
 // incremented once per id (so two ids of one process differ in those bytes), encoded with the URL-safe alphabet
